@@ -28,15 +28,16 @@ def docCdata : Bytes :=
 def docComment : Bytes :=
   [60, 75, 101, 121, 62, 97, 60, 33, 45, 45, 32, 99, 32, 45, 45, 62, 98, 60, 47, 75, 101, 121, 62]
 
-/-- F-xml-1 (`xml-cdata-dropped`): the tokeniser sees the CDATA section … -/
+/-- F-xml-1 (`xml-cdata-dropped`, FIXED by c575458): the tokeniser sees the CDATA section … -/
 theorem cdata_tokens : tokenize docCdata = [.start key [], .cdata [97, 98, 99], .stop key] := by decide
 
 /-- … it denotes `abc` … -/
 theorem cdata_meaning : charsMeaning [.cdata [97, 98, 99]] = some [97, 98, 99] := by decide
 
-/-- … and the document is accepted with the empty string as the value of `Key` -/
-theorem cdata_dropped :
-    strOf (decodeDoc X0 (.named key) .str (deEvents (tokenize docCdata))) = some [] := by decide
+/-- … and since the repair the document is accepted with `abc` as the value of `Key`
+(before: the empty string; `Deserializer::read_event` skipped `Event::CData`) -/
+theorem cdata_kept :
+    strOf (decodeDoc X0 (.named key) .str (deEvents (tokenize docCdata))) = some [97, 98, 99] := by decide
 
 /-- the independent tree-level spec reads `abc` from the same bytes -/
 theorem cdata_spec :
@@ -44,25 +45,15 @@ theorem cdata_spec :
      | .ok (.elem n _ [.chars s]) => n == key && s == [97, 98, 99]
      | _ => false) = true := by decide
 
-/-- F-xml-2 (`xml-comment-splits-text`): `a<!-- c -->b` is the string `ab` … -/
+/-- F-xml-2 (`xml-comment-splits-text`, FIXED by c575458): `a<!-- c -->b` is the string `ab` … -/
 theorem comment_meaning : charsMeaning [.text [97], .comment, .text [98]] = some [97, 98] := by decide
 
 theorem comment_tokens : tokenize docComment = [.start key [], .text [97], .comment, .text [98], .stop key] := by
   decide
 
-/-- … and is accepted as `a` -/
-theorem comment_splits :
-    strOf (decodeDoc X0 (.named key) .str (deEvents (tokenize docComment))) = some [97] := by decide
-
-/-- the counterexamples in the form of `C13_decode_meaning_full` -/
-theorem meaning_counterexample_cdata (X : Ext) :
-    charsMeaning [.cdata [97, 98, 99]] = some [97, 98, 99] ∧
-    readStringElement X key (deEvents ([.cdata [97, 98, 99]] ++ .stop key :: [])) = .ok (.str [], []) := by
-  refine ⟨by decide, ?_⟩
-  have hd : decode X .str [.stop key] = .ok (.str [], [.stop key]) :=
-    decode_scalar_ok X .str (raw := []) rfl (by simp [textOf])
-      (by simp [decodeScalarText, decodeStr, utf8Valid_nil, unescape, Except.map])
-  simp [readStringElement, deEvents, hd, expectEnd_stop]
+/-- … and is accepted as `ab` (before: `a`; `Deserializer::text` took the first text event only) -/
+theorem comment_joined :
+    strOf (decodeDoc X0 (.named key) .str (deEvents (tokenize docComment))) = some [97, 98] := by decide
 
 /-- F-xml-3 (`xml-xsi-type`): without the listed exception the deserialiser table of `Grantee` is not the Smithy
 shape (`xsi:type` is an `xmlAttribute` there) -/
@@ -117,13 +108,5 @@ theorem illformed_accepted :
 /-- … although not well-formed -/
 theorem illformed_is_illformed :
     (match XmlSpec.parse docAttr with | .error (.illFormed _) => true | _ => false) = true := by decide
-
-/-- the full statement `C13_decode_meaning_full` is false of the model (hence, by the correspondence run on the
-witness line `w-cdata`, of the code) -/
-theorem decode_meaning_full_false (X : Ext) : ¬ S3V.C13.C13_decode_meaning_full X := by
-  intro h
-  have h1 := h [.cdata [97, 98, 99]] key [] [97, 98, 99] (by decide)
-  rw [(meaning_counterexample_cdata X).2] at h1
-  simp [deEvents] at h1
 
 end S3V.C13.Findings
